@@ -10,7 +10,7 @@ from ..terms import A, C, F, V, call, conj, TRUE, CUT, show_program, show_term
 
 ID = 'C08'
 LEVEL = 'model_checking'
-RULE = ('every history of depth <= D over 26 events (load of a script S9 that defines predicates named like API functions; load of a self-recursive predicate S7 whose base case comes from another script S8 or from a dynamic fact; 17 + start / step / close of a call p(X) that stays suspended across the other events and must keep the resolution it had when it was made), from the empty engine and from 4 non-initial states (combined definitions, a Python predicate plus a script, facts between two loads, the recursive script), plus a 12-event core one step deeper, plus the full alphabet from the empty engine with every script loaded through load_script_from_file from ONE path that is rewritten before each load, plus the full alphabet (from the state Python p/1 + S1) with every Python predicate registered as a callable OBJECT that is false in a boolean context: register_function for p with inferred / explicit (p/2) / variadic '
+RULE = ('every history of depth <= D over 26 events (load of a script S9 that defines predicates named like API functions; load of a self-recursive predicate S7 whose base case comes from another script S8 or from a dynamic fact; 17 + start / step / close of a call p(X) that stays suspended across the other events and must keep the resolution it had when it was made), from the empty engine and from 4 non-initial states (combined definitions, a Python predicate plus a script, facts between two loads, the recursive script), plus a 12-event core one step deeper, plus the full alphabet from the empty engine with every script loaded through load_script_from_file from ONE path that is rewritten before each load, plus the full alphabet (from the state Python p/1 + S1) with every Python predicate registered as a callable OBJECT that is false in a boolean context, plus the full alphabet from the empty engine in a process that turns warnings into errors: register_function for p with inferred / explicit (p/2) / variadic '
         'arity and for q/1; load of script S1 (p/1 facts), S2 (p/1 with a cut in its first clause), S3 (p/2 and q(X) :- '
         'p(X)), S6 (names that collide with context keys: once_1/0, once_1/1, p_n/1, call_n/0, foo_1/0 next to foo/1) each '
         'with overwrite on and off; load of a text that is not Python (S4) and of a text that defines p_1 and q_1 and then '
@@ -348,11 +348,20 @@ def plan(tier):
     sh += [(d + 1, k, 2 * n, 0, 'core') for k in range(2 * n)]
     sh += [(d, k, n, 0, 'all-file') for k in range(n)]
     sh += [(d, k, n, 2, 'all-objects') for k in range(n)]
+    sh += [(d, k, n, 0, 'all-warnings-are-errors') for k in range(n)]
     return sh
 
 
 def run_shard(spec):
     global LOAD_PATH
+    if spec[4] == 'all-warnings-are-errors':
+        # the process runs with warnings turned into errors (python -W error, pytest filterwarnings=error):
+        # nothing the engine does on these histories is worth a warning, an unknown predicate simply fails
+        import warnings
+        LOAD_PATH = None
+        with warnings.catch_warnings():
+            warnings.simplefilter('error')
+            return _run_shard(spec[:4] + ('all',), via='warnings')
     if spec[4] == 'all-objects':
         LOAD_PATH = None
         CALLABLE['shape'] = 'falsy-object'
@@ -402,7 +411,7 @@ def _run_shard(spec, via=None):
             acc.skipped[r[1]] += 1
             continue
         if r[0] == 'violation':
-            acc.violation(({'file': 'file-loads:', 'objects': 'callable-objects:'}.get(via, '')) + r[1], (len(hist), pi, idx), {'hist': list(hist), 'via': via}, r[2], key=(via or '') + str(list(hist)))
+            acc.violation(({'file': 'file-loads:', 'objects': 'callable-objects:', 'warnings': 'warnings-are-errors:'}.get(via, '')) + r[1], (len(hist), pi, idx), {'hist': list(hist), 'via': via}, r[2], key=(via or '') + str(list(hist)))
             continue
         _, states, steps, nontrivial = r
         acc.n['transitions'] += steps
@@ -417,6 +426,12 @@ def _run_shard(spec, via=None):
 
 def replay(case):
     global LOAD_PATH
+    if case.get('via') == 'warnings':
+        import warnings
+        with warnings.catch_warnings():
+            warnings.simplefilter('error')
+            r = run_history(tuple(case['hist']), compile_scripts())
+        return [('warnings-are-errors:' + r[1], r[2])] if r[0] == 'violation' else []
     if case.get('via') == 'objects':
         CALLABLE['shape'] = 'falsy-object'
         try:
